@@ -265,6 +265,33 @@ func c10Structured(r *fw.Rec, kind string, blk, nblk int) {
 			add("0xMFFD00000000000008000000000000001", "extreme:wide-pair")
 		}
 	}
+	// LLVM's canonical quiet NaN of the kind and its negative (what constant folding
+	// and clang produce), and the infinities, spelled out
+	if blk == 0 {
+		switch kind {
+		case "half":
+			add("0xH7E00", "nan-canonical")
+			add("0xHFE00", "nan-canonical")
+		case "float", "double":
+			add("0x7FF8000000000000", "nan-canonical")
+			add("0xFFF8000000000000", "nan-canonical")
+		case "x86_fp80":
+			add("0xK7FFFC000000000000000", "nan-canonical")
+			add("0xKFFFFC000000000000000", "nan-canonical")
+			add("0xK7FFF8000000000000000", "inf")
+			add("0xKFFFF8000000000000000", "inf")
+		case "fp128":
+			add("0xL00000000000000007FFF800000000000", "nan-canonical")
+			add("0xL0000000000000000FFFF800000000000", "nan-canonical")
+			add("0xL00000000000000007FFF000000000000", "inf")
+			add("0xL0000000000000000FFFF000000000000", "inf")
+		case "ppc_fp128":
+			add("0xM7FF80000000000000000000000000000", "nan-canonical")
+			add("0xMFFF80000000000000000000000000000", "nan-canonical")
+			add("0xM7FF00000000000000000000000000000", "inf")
+			add("0xMFFF00000000000000000000000000000", "inf")
+		}
+	}
 	// one-digit mantissas times powers of ten, both signs (the printer's
 	// scientific notation with a single digit before the exponent); for half and
 	// float only the values exactly representable there (LLVM rejects the others,
